@@ -1,5 +1,6 @@
 import Driver.Util
 import APModel.Model.Text
+import APModel.Model.TextUnmarshal
 open Lean APModel.Text
 
 namespace Driver
@@ -17,5 +18,25 @@ def opTextRead (j : Json) : R Json := do
   match scan (raw ++ [quote]) with
   | some (r, []) => return Json.mkObj [("text", renderBytes (unesc r))]
   | _ => return Json.mkObj [("none", Json.bool true)]
+
+end Driver
+
+namespace Driver
+open APModel.TextUnmarshal
+
+def opUnmarshalText (j : Json) : R Json := do
+  let s ← natList (← fld j "s")
+  let ty ← strF j "type"
+  if ty == "NaturalLanguageValues" then
+    match nlvUnmarshalText s with
+    | .ok vals => return Json.mkObj [("err", Json.bool false), ("vals", jarr (vals.map renderBytes))]
+    | .err => return Json.mkObj [("err", Json.bool true), ("vals", jarr [])]
+    | .panic => return Json.mkObj [("panic", Json.bool true)]
+  else
+    match scalarUnmarshalText s with
+    | .ok [v] => return Json.mkObj [("err", Json.bool false), ("v", renderBytes v)]
+    | .ok _ => return Json.mkObj [("bad", Json.bool true)]
+    | .err => return Json.mkObj [("err", Json.bool true), ("v", jarr [])]
+    | .panic => return Json.mkObj [("panic", Json.bool true)]
 
 end Driver
